@@ -185,6 +185,11 @@ class GEA:
         self.site_vals = defaultdict(set)
         self.edges = defaultdict(set)
         self.states = set()
+        # constant propagation in the product (pseudo-atoms ('ival', local, field path) = concrete int / bool): a loop
+        # governed by a counter with a constant start and constant steps is unrolled, whatever its spelling
+        self._ival_seen = defaultdict(set)
+        self._ival_banned = set()
+        self._no_ival = set(l for l in self.prov.mutborrow if self.prov.mutators(l))
         self._explore()
 
     # ------------------------------------------------------------ switches
@@ -576,6 +581,13 @@ class GEA:
                 targets.append(a["t"])
         if t["otherwise"] not in targets:
             targets.append(t["otherwise"])
+        cv = self._eval_op(t["discr"], val)
+        if cv is not None and not info.get("log"):
+            want = str(int(cv))
+            for a in t["arms"]:
+                if a["v"] == want:
+                    return [(a["t"], val)]
+            return [(t["otherwise"], val)]
         if info["kind"] == "opaque":
             return [(x, val) for x in targets]
         if info["kind"] == "atom":
@@ -714,6 +726,120 @@ class GEA:
             out.append((tg, v2))
         return out
 
+    # ------------------------------------------------------------ constant propagation
+    @staticmethod
+    def _place_key(p):
+        path = []
+        for e in p["proj"]:
+            if e["k"] == "field":
+                path.append(e["name"])
+            elif e["k"] == "downcast":
+                continue             # (x as Variant).f: the parts are recorded per field when the variant value is built
+            else:
+                return None          # through a reference / index: not tracked
+        return (p["l"], tuple(path))
+
+    def _ival(self, val, key):
+        vs = val.get(("ival",) + key)
+        if vs is not None and len(vs) == 1:
+            return next(iter(vs))
+        return None
+
+    def _eval_op(self, o, val):
+        k = o["k"]
+        if k == "const":
+            v = o.get("val")
+            if v is None and o.get("def"):
+                v = self.body.prog.const_value(o["def"])
+            if isinstance(v, (int, bool)):
+                return v
+            return None
+        if k in ("copy", "move"):
+            key = self._place_key(o["p"])
+            if key is None:
+                return None
+            return self._ival(val, key)
+        return None
+
+    def _ival_kill(self, val, key):
+        l, path = key
+        for a in [a for a in val if a[0] == "ival" and a[1] == l and a[2][:len(path)] == path]:
+            del val[a]
+
+    def _ival_set(self, val, key, v):
+        if key[0] in self._no_ival or key in self._ival_banned or v is None:
+            return
+        if isinstance(v, int) and not isinstance(v, bool) and abs(v) > (1 << 40):
+            return
+        seen = self._ival_seen[key]
+        seen.add(v)
+        if len(seen) > 64:
+            self._ival_banned.add(key)       # not a small constant-bounded counter: stop unrolling on it
+            return
+        val[("ival",) + key] = frozenset([v])
+
+    def _ival_assign(self, val, p, rv):
+        key = self._place_key(p)
+        if key is None:
+            return
+        self._ival_kill(val, key)
+        k = rv["k"]
+        if k == "use":
+            v = self._eval_op(rv["op"], val)
+            if v is not None:
+                self._ival_set(val, key, v)
+            elif rv["op"]["k"] in ("copy", "move"):
+                src = self._place_key(rv["op"]["p"])
+                if src is not None:          # a structured value: copy what is known about its parts
+                    for a, vs in list(val.items()):
+                        if a[0] == "ival" and a[1] == src[0] and a[2][:len(src[1])] == src[1] and len(vs) == 1:
+                            self._ival_set(val, (key[0], key[1] + a[2][len(src[1]):]), next(iter(vs)))
+        elif k == "cast" and rv.get("ck") in ("IntToInt",):
+            v = self._eval_op(rv["op"], val)
+            if v is not None:
+                self._ival_set(val, key, int(v))
+        elif k == "unop":
+            v = self._eval_op(rv["a"], val)
+            if v is not None and rv["op"] == "Not" and isinstance(v, bool):
+                self._ival_set(val, key, not v)
+            elif v is not None and rv["op"] == "Neg" and not isinstance(v, bool):
+                self._ival_set(val, key, -v)
+        elif k == "binop":
+            a, b = self._eval_op(rv["a"], val), self._eval_op(rv["b"], val)
+            if a is None or b is None:
+                return
+            op = rv["op"]
+            base = op.replace("WithOverflow", "").replace("Unchecked", "")
+            r = None
+            if base == "Add":
+                r = a + b
+            elif base == "Sub":
+                r = a - b
+            elif base == "Mul":
+                r = a * b
+            elif base in ("Lt", "Le", "Gt", "Ge", "Eq", "Ne"):
+                r = {"Lt": a < b, "Le": a <= b, "Gt": a > b, "Ge": a >= b, "Eq": a == b, "Ne": a != b}[base]
+            if r is None:
+                return
+            if op.endswith("WithOverflow"):
+                self._ival_set(val, (key[0], key[1] + ("0",)), r)
+                self._ival_set(val, (key[0], key[1] + ("1",)), False)
+            else:
+                self._ival_set(val, key, r)
+        elif k == "aggregate" and rv.get("ak") in ("adt", "tuple"):
+            names = rv.get("fields") if rv.get("ak") == "adt" else [str(i) for i in range(len(rv["ops"]))]
+            if names and len(names) == len(rv["ops"]):
+                for n_, o in zip(names, rv["ops"]):
+                    v = self._eval_op(o, val)
+                    if v is not None:
+                        self._ival_set(val, (key[0], key[1] + (n_,)), v)
+                    elif o["k"] in ("copy", "move"):
+                        src = self._place_key(o["p"])
+                        if src is not None:
+                            for a, vs in list(val.items()):
+                                if a[0] == "ival" and a[1] == src[0] and a[2][:len(src[1])] == src[1] and len(vs) == 1:
+                                    self._ival_set(val, (key[0], key[1] + (n_,) + a[2][len(src[1]):]), next(iter(vs)))
+
     def _explore(self):
         body, pv = self.body, self.prov
         start = (0, frozenset())
@@ -728,6 +854,7 @@ class GEA:
                 if s["k"] != "assign":
                     continue
                 p = s["p"]
+                self._ival_assign(val, p, s["rv"])
                 if p["proj"]:
                     continue
                 l = p["l"]
@@ -747,6 +874,9 @@ class GEA:
                 if k in ("call", "yield"):
                     self._kill(val, call_bb=bb)
                     dest = t["dest"] if k == "call" else t["resume_arg"]
+                    dk = self._place_key(dest)
+                    if dk is not None:
+                        self._ival_kill(val, dk)
                     if not dest["proj"]:
                         l = dest["l"]
                         if l in pv.phi_locals or l == 0:
